@@ -13,6 +13,10 @@ quick.append(job("c03.platt_pairing", secs=20))
 for model in range(8):
     for nq, d in ((2, 1), (2, 2), (3, 3)):
         quick.append(job("c03.batches", secs=60, allow=("inexact",), model=model, nq=nq, d=d, nt=4))
+# predictors fitted with f64 and re-typed over the symbolic scalar through serde (PCA, PLS regression, GMM)
+for model in (0, 1, 2):
+    for nq, d in ((2, 2), (3, 3)):
+        quick.append(job("c03.batches_retyped", secs=60, qto=2000, allow=("inexact",), model=model, nq=nq, d=d))
 # symbolic training data: the model itself is a symbolic function of the data
 quick.append(job("c03.batches", secs=120, jobs=4, model=0, nq=2, d=1, nt=3, symtrain=1, B=8))
 quick.append(job("c03.batches", secs=120, model=3, nq=2, d=1, nt=3, symtrain=1, B=8))
